@@ -120,13 +120,13 @@ def check(ctx):
         runner.run_job(ctx, _job(ctx, "auto", o, a))
         paths.append(o)
     st = _stats(paths)
-    st["binding_selftest"] = selftest(ctx, paths[0])
+    st["binding_selftest"] = selftest(ctx, paths[0]) if not ctx.violations else {"skipped": "violations reported"}
     ctx.trusted += ["harness/file.go: rendering of abstract lines to text (seeded MAC/IP spellings), single-syscall edits, "
                     "reading the served mapping back through the handlers, address -> id", "fsnotify delivering one event per write syscall",
                     "TLC evaluation of FileTrace guards"]
     ctx.assumptions += ["updates are in-place single-syscall writes (truncate, append, pwrite); rename-over is outside the property's wording",
                         "the harness waits for the watcher's reload (observation point) after every step: the trace is quiescent between steps",
-                        "'eventually' = a reload within 10 s of a changed file"]
+                        "'eventually' = a reload within 5 s of a changed file"]
     return runner.finish(
         ctx,
         rule="all lease files of <= 3 lines over {blank, comment, ok(m,a) x 2x2, whitespace-only, 1 field, 3 fields, bad MAC, bad IP, wrong family} for both "
